@@ -11,6 +11,7 @@ import (
 	"os"
 	"reflect"
 	"strings"
+	"sync"
 	"time"
 
 	"github.com/pebbe/zmq4"
@@ -179,6 +180,17 @@ var nosaveMessages = map[string]struct{}{
 	"externaltrigger": {},
 }
 
+// configLock serialises access to the viper configuration store, which is not safe for concurrent
+// use: the client updater saves state into it while the RPC server reads saved settings from it.
+var configLock sync.Mutex
+
+// configUnmarshalKey is viper.UnmarshalKey under configLock.
+func configUnmarshalKey(key string, rawVal interface{}) error {
+	configLock.Lock()
+	defer configLock.Unlock()
+	return viper.UnmarshalKey(key, rawVal)
+}
+
 // saveState stores server configuration to the standard config file.
 func saveState(lastMessages map[string]interface{}) {
 
@@ -187,6 +199,7 @@ func saveState(lastMessages map[string]interface{}) {
 	now := time.Now().Format(time.UnixDate)
 	lastMessages["CURRENTTIME"] = now
 	// Note that the nosaveMessages shouldn't get into the lastMessages map.
+	configLock.Lock()
 	for k, v := range lastMessages {
 		if _, ok := nosaveMessages[strings.ToLower(k)]; !ok {
 			viper.Set(k, v)
@@ -198,6 +211,7 @@ func saveState(lastMessages map[string]interface{}) {
 	bakname := mainname + ".bak"
 	verifPoint("save.begin")
 	err := viper.WriteConfigAs(tmpname)
+	configLock.Unlock()
 	if err != nil {
 		log.Println("Could not store config file ", tmpname, ": ", err)
 		return
